@@ -94,9 +94,16 @@ impl PrettyPrint for MechSet {
 
 impl Hash for MechSet {
   fn hash<H: Hasher>(&self, state: &mut H) {
+    // Set equality ignores insertion order, so the hash must too:
+    // combine the element hashes commutatively.
+    let mut acc: u64 = 0;
     for x in self.set.iter() {
-      x.hash(state)
+      let mut element_hasher = seahash::SeaHasher::new();
+      x.hash(&mut element_hasher);
+      acc = acc.wrapping_add(element_hasher.finish());
     }
+    self.set.len().hash(state);
+    acc.hash(state);
   }
 }
 
